@@ -50,6 +50,9 @@ func (f *mzFile) Path() string { return concrete.Str(f.P) }
 
 func (f *mzFile) content() []byte {
 	p := f.Path()
+	if f.Size == "empty" {
+		return []byte{}
+	}
 	if p == "go.mod" {
 		switch f.Gover {
 		case "old":
@@ -405,8 +408,14 @@ func treeable(fs []*mzFile) bool {
 		if f.Mode != "regular" || f.LstatErr || f.Size == "big" || p == "" || strings.HasPrefix(p, "/") || strings.Contains(p, "\x00") {
 			return false
 		}
-		for _, e := range strings.Split(p, "/") {
-			if e == "" || e == "." || e == ".." || e == ".git" || e == ".hg" || e == ".svn" || e == ".bzr" {
+		elems := strings.Split(p, "/")
+		for i, e := range elems {
+			if e == "" || e == "." || e == ".." {
+				return false
+			}
+			// directories with the names of version-control metadata are outside the property; a regular file of
+			// such a name (a git worktree's .git file) is just a file
+			if i < len(elems)-1 && (e == ".git" || e == ".hg" || e == ".svn" || e == ".bzr") {
 				return false
 			}
 		}
@@ -560,6 +569,15 @@ func writeRawZip(path string, entries []mzEntry) error {
 				return err
 			}
 			io.Copy(w, &zeroReader{bigSize})
+		case "dirmode":
+			// a file entry (no trailing slash, real content) whose mode bits say "directory"
+			fh := &azip.FileHeader{Name: name, Method: azip.Deflate}
+			fh.SetMode(fs.ModeDir | 0755)
+			w, err := zw.CreateHeader(fh)
+			if err != nil {
+				return err
+			}
+			w.Write(data)
 		case "lie-more", "lie-less", "lie-zero", "over", "huge":
 			// deflate the real content, declare another uncompressed size
 			var cb bytes.Buffer
